@@ -5061,7 +5061,14 @@ _dispatch_lane_push_waiter(dispatch_lane_t dq, dispatch_sync_context_t dsc,
 		}
 
 		if ((old_state ^ new_state) & DISPATCH_QUEUE_IN_BARRIER) {
-			return _dispatch_lane_barrier_complete(dq, qos, 0);
+			// this thread now drains the head of `dq`. Until the waiter that
+			// was just pushed is woken, its hierarchy keeps `dq` alive; once
+			// it is, it can run, complete, and (dispatch_set_target_queue on
+			// the queue above) drop the last reference on `dq` while the
+			// drain below is still handing out the next items.
+			_dispatch_retain_2(dq);
+			return _dispatch_lane_barrier_complete(dq, qos,
+					DISPATCH_WAKEUP_CONSUME_2);
 		}
 #if HAVE_PTHREAD_WORKQUEUE_QOS
 		if (unlikely((old_state ^ new_state) & DISPATCH_QUEUE_MAX_QOS_MASK)) {
